@@ -233,7 +233,11 @@ def run(chk, only=None):
             decls = text[:text.rfind("{")] if "{" in text else text
             enum_objs = set(re.findall(r"enum\s+\w+\s+(\w+)", decls)) | set(re.findall(r"\b([A-Za-z_]\w*)\b(?=\s*[,=}])", " ".join(re.findall(r"enum\s*\w*\s*\{([^}]*)\}", decls))))
             arr_objs = set(re.findall(r"(\w+)\s*\[\d*\]", decls))
-            if (c.startswith("error:TypeChecker-0") or c.startswith("error:Resolver")) and (stm_ids & enum_objs):
+            if re.search(r"\(\s*[A-Za-z_]\w*\s*(\[[^\]]*\]|\((?:[^()]|\([^()]*\))*\))\s*\)\s*(&&|\*|\+|-|&)", stm):
+                # '( p[2] ) && x', '( f(x) ) * y', '( a[i] ) - 1': the parenthesised text also parses as a type name (identifier + abstract declarator), the
+                # cast reading wins and is never made ambiguous
+                key = "construct:parenthesised-subscript-or-call-read-as-type-name"
+            elif c.startswith("error:TypeChecker-0") and (stm_ids & enum_objs):
                 key = "operand:of-enumerated-type"
             elif c in ("error:TypeChecker-000", "error:TypeChecker-001", "error:TypeChecker-004") and (stm_ids & arr_objs):
                 key = "operand:array-in-binary-operator"
